@@ -244,7 +244,7 @@ def decrypt_packet(packet : PHYPayload, appkey=None, appskey=None, nwkskey=None)
                     dec_payload = encrypt_frame(nwkskey, mac.dev_addr, mac.fcnt, bytes(mac.payload))
                 else:
                     dec_payload = encrypt_frame(appskey, mac.dev_addr, mac.fcnt, bytes(mac.payload))
-                    mac.payload = Raw(dec_payload)
+                mac.payload = Raw(dec_payload)
                 return packet
             else:
                 raise BadMICError()
